@@ -31,9 +31,9 @@ class C13(KernelProp):
     n_ops = (8, 30)
     weights = {"new": 10, "enter": 14, "exit": 10, "add": 12, "addf": 8, "getnw": 10, "get": 8, "finish": 1,
                "getall": 4, "addtd": 10, "current": 1, "parent": 0, "spawn": 2, "state": 12}
-    gen_kwargs = {"max_ctx": 6, "malformed": 0.02, "wrong_state": 0.45, "exc_end": 0.5, "td_depth": 1}
+    gen_kwargs = {"max_ctx": 6, "malformed": 0.02, "wrong_state": 0.45, "exc_end": 0.5, "td_depth": 1, "p_cancel": 0.1}
     rule = ("the full state x operation matrix (never entered / open / inside a teardown callback / closed after clean, "
-            "raising-block, raising-teardown exits) x (add_resource, add_resource_factory, get_resource, "
+            "raising-block, cancelled-block, raising-teardown exits) x (add_resource, add_resource_factory, get_resource, "
             "get_resource_nowait, add_teardown_callback, re-entry, closed flag) on both back-ends (exhaustive, both "
             "tiers), leaving a parent with an open child (from another task), plus random op orders with 45% of "
             "operations aimed at contexts in the wrong state. Non-trivial: an operation applied outside the open state")
@@ -42,7 +42,7 @@ class C13(KernelProp):
 
     def exhaustive(self, tier: str):
         cases = []
-        ends = [{"k": "ret"}, {"k": "exn", "n": 0}, {"k": "base", "n": 0}]
+        ends = [{"k": "ret"}, {"k": "exn", "n": 0}, {"k": "base", "n": 0}, {"k": "cancelled"}]
         for backend in ("asyncio", "trio"):
             # never entered
             cases.append({"kind": "ctx", "backend": backend, "origin": "matrix:inactive",
@@ -78,8 +78,9 @@ class C13(KernelProp):
                                       {"op": "new", "t": 0, "c": 2, "parent": None}, {"op": "enter", "t": 0, "c": 2},
                                       {"op": "spawn", "t": 0, "t2": 1}, {"op": "new", "t": 1, "c": 3, "parent": 2},
                                       {"op": "enter", "t": 1, "c": 3}, {"op": "exit", "t": 0, "c": 2, "end": end},
-                                      {"op": "state", "t": 0, "c": 2}, {"op": "exit", "t": 1, "c": 3, "end": {"k": "ret"}},
-                                      {"op": "exit", "t": 0, "c": 1, "end": {"k": "ret"}}]})
+                                      {"op": "state", "t": 0, "c": 2}] + probes(2)      # left, although with an error
+                                     + [{"op": "exit", "t": 1, "c": 3, "end": {"k": "ret"}},
+                                        {"op": "exit", "t": 0, "c": 1, "end": {"k": "ret"}}]})
         return cases
 
     def nontrivial(self, case, impl):
